@@ -15,7 +15,8 @@ usage: seedconfirm.py [Cxx ...] [--extra Cyy,Czz] [--skip-demo]
 import json, os, re, subprocess, sys, shutil, glob
 
 ENV = dict(os.environ, GOFLAGS="-mod=mod", GOPROXY="off", GOSUMDB="off", GOTOOLCHAIN="local")
-SW = "/tmp/seedwt"
+WID = os.environ.get("SEED_WORKER", "0")
+SW = "/tmp/seedwt" + WID
 
 def sh(cmd, cwd=None, timeout=900):
     p = subprocess.run(cmd, shell=True, cwd=cwd, env=ENV, capture_output=True, text=True, timeout=timeout)
@@ -94,7 +95,7 @@ def confirm(prop, i, skip_demo=False):
         shutil.rmtree(SW, ignore_errors=True)
     return res
 
-CK = "/tmp/seedck"
+CK = "/tmp/seedck" + WID
 
 def run_checks(res, props):
     """Runs the checks against a scratch worktree with the change applied
@@ -110,7 +111,7 @@ def run_checks(res, props):
             res["check"] = "diff does not apply"
             return
         for p in props:
-            env = f"VERIF_REPO={CK} VERIF_OUT=/tmp/seedout"
+            env = f"VERIF_REPO={CK} VERIF_OUT=/tmp/seedout{WID}"
             rc, o = sh(f"{env} ./check.sh {p} quick", "/verif", timeout=1800)
             lines = [l for l in o.splitlines() if "[violated]" in l or "[undecided]" in l or l.startswith("FATAL")]
             det[p] = {"exit": rc, "findings": [l.replace(CK + "/", "")[:400] for l in lines[:6]]}
@@ -130,17 +131,20 @@ def main():
     props = args or sorted(os.listdir("/tmp/seed"))
     props = [p for p in props if re.match(r"C\d\d$", p)]
     claimed = [c["property_id"] for c in json.load(open("/verif/MANIFEST.json"))["checks"]]
+    RES = f"/tmp/seed/results{WID}.json"
     results = []
-    if os.path.exists("/tmp/seed/results.json"):
-        results = json.load(open("/tmp/seed/results.json"))
+    if os.path.exists(RES):
+        results = json.load(open(RES))
     for p in props:
         for i in (1, 2):
             r = confirm(p, i, skip_demo)
             if r.get("status") == "confirmed":
                 run = [q for q in ([p] + extra) if q in claimed]
+                if "all" in extra:
+                    run = [p] + [q for q in claimed if q != p]
                 run_checks(r, run)
             results = [x for x in results if not (x["property"] == p and x["mutation"] == i)] + [r]
             print(p, f"m{i}", r.get("status"), "| detected by:", r.get("detected_by"), flush=True)
-            json.dump(results, open("/tmp/seed/results.json", "w"), indent=1)
+            json.dump(results, open(RES, "w"), indent=1)
 
 main()
